@@ -469,8 +469,8 @@ func runOn(en *env, c *Chain) (fails []failure, out outcome, reuse *env) {
 			add("idle|"+idleNames(d), "the runtime is not idle after the host call returned: %s", d)
 		} else if d := en.probe(); d != "" {
 			add("probe", "%s", d)
-		} else if len(fails) == 0 {
-			reuse = en
+		} else {
+			reuse = en // idle and usable, even if the case itself deviated from the model
 		}
 	}
 	return
